@@ -6,9 +6,10 @@ import WebPkg.Driver.OpsBundle
 import WebPkg.Driver.OpsIB
 import WebPkg.Driver.OpsBSig
 import WebPkg.Driver.OpsFault
+import WebPkg.Driver.OpsRes
 open WebPkg.Driver
 
-def handlers : List (String → List String → Option String) := [handleCbor, handleMice, handleSH, handleSxg, handleBundle, handleIB, handleBSig, handleFault]
+def handlers : List (String → List String → Option String) := [handleCbor, handleMice, handleSH, handleSxg, handleBundle, handleIB, handleBSig, handleFault, handleRes]
 
 def dispatch (op : String) (args : List String) : String :=
   match handlers.findSome? (fun h => h op args) with
